@@ -38,7 +38,7 @@ CLAIMS = {
    "On every path: no exception leaves minimize; every value handed to the models is finite and within the barrier; a NaN result is never successful. Shapes include all-fixed, inconsistent bounds (+callback), dict constraints, fixed+nonlinear+scale, contradictory limits. Termination of the numerical kernels themselves is outside (they are stubbed). " + CTL, CTLNOTE, "5/C08"),
  "C09": mc("bounded symbolic execution of whole runs (z3 LRA); first satisfied stopping request vs end of run",
    "On every path: no evaluation follows one that satisfies a request (callback stop, f<=target & feasible, feasible in a feasibility problem); statuses 1/3/4 only if the request occurred at the last evaluation; nfev is that index. Trigger at the first point, inside the initial sampling and at a trust-region step are reached. " + CTL,
-   CTLNOTE + "With inconsistent bounds / all variables fixed the documented status -1 / 2 takes precedence over the request (the only evaluation is made while the early result is assembled). Target in [-1e6, 1e6].", "5/C09"),
+   CTLNOTE + "With inconsistent bounds / all variables fixed the documented status -1 / 2 takes precedence over the request (the only evaluation is made while the early result is assembled). Target: symbolic in [-1e6, 1e6], +inf, or the documented default -inf (then a feasible evaluation returning -inf is the request).", "5/C09"),
  "C15": mc("symbolic execution of the real sub-solvers over z3 nlsat (QF_NRA), all data symbolic for n=1; n=2 semi-symbolic grid in thorough",
    "n=1: for every gradient, curvature, bounds (finite/infinite), radius, right-hand side: the returned step is within the bounds exactly, within the radius (1e-9), keeps inequalities that held at the origin and the equality null space (constrained tangential), improve_tcg on/off, all five solvers. Thorough adds n=2 with model data from a 6-point grid of degeneracies and symbolic bounds/radius.",
    TRUSTED + "Constraint matrices concrete (pivoted QR is LAPACK); exact real arithmetic; magnitudes 0 or 1e-6..1e6; nlsat time-outs are reported as inconclusive.", "5/C15, 4/H-SUB"),
